@@ -62,6 +62,14 @@ draining it), then drops them.  All functions are total and structurally recursi
 `closure (own := false)` is the hypothetical pre-#205 wiring: the closure works on the cell of the
 pipeline that created it instead of on a clone.
 
+How the machine is tied to the code (harness `bin/carrier.rs`): (i) `planOf` is re-derived in Rust
+from the real `IRQuery` and compared textually; (ii) over a lazy adapter the real call log must be
+"root pipeline's calls, then bursts = bodies of closures"; (iii) under batching adapters every resolver
+call is bracketed in a log, the nested log is parsed by the grammar this machine assigns to
+interleavings (pipeline = its calls, each with a window of activations of earlier closures;
+activation = the body's pipeline, then a window over its closures) into an abstract schedule, and
+`runStats` must serve exactly the activations the real run performed and read the schedule to its end.
+
 Not modelled (assumptions, stated in the evidence): Rust closure capture itself; that a per-context
 `neighbors` iterator and the fold's element vector do not pull the outer pipeline; a closure is
 never re-entered while it runs (`FnMut` behind `&mut`).
